@@ -30,6 +30,9 @@ type Engine struct {
 	nameTables map[*ssa.Function]map[string][]ssa.Instruction
 	loopCache  map[*ssa.Function]map[*ssa.BasicBlock]*loopInfo
 	workdir    string
+	bindings   map[string]*FuncBinding
+	recording  map[string]map[string]string
+	fpCache    map[*ssa.Function]map[*ssa.Alloc]string
 	mode       string // "first" | "all"
 	contractSource map[string]string // pkg -> "repo" | "mirror"
 	verbose    bool
@@ -117,7 +120,7 @@ func (e *Engine) globalFor(v *types.Var) *ssa.Global {
 func loadEngine(repo string, patterns []string, mirrorDir string, externDir string) (*Engine, error) {
 	e := &Engine{pkgs: map[string]*ssa.Package{}, specs: newSpecDB(), typeTags: map[string]int64{}, tagTypes: map[int64]types.Type{},
 		globalIDs: map[*ssa.Global]int64{}, funcIDs: map[*ssa.Function]int64{}, nameTables: map[*ssa.Function]map[string][]ssa.Instruction{},
-		loopCache: map[*ssa.Function]map[*ssa.BasicBlock]*loopInfo{}, mode: "first", contractSource: map[string]string{}}
+		loopCache: map[*ssa.Function]map[*ssa.BasicBlock]*loopInfo{}, mode: "first", contractSource: map[string]string{}, bindings: loadBindings()}
 	cfg := &packages.Config{Mode: packages.LoadAllSyntax, Dir: repo, BuildFlags: []string{"-tags=verif"}, Env: append(os.Environ(), "GOFLAGS=-mod=mod", "GOPROXY=off")}
 	pkgs, err := packages.Load(cfg, patterns...)
 	if err != nil {
